@@ -91,8 +91,24 @@ def run(chk):
             qs = [line_query(rng, wj, sph, lf, spread=rng.choice([0.2, 0.5, 1.0])) for _ in range(150)]
             qs = [(p, d) for p, d in qs if d >= 0]
             T = rng.choice([8, 16, 32])
+        if wi % 4 == 2:
+            # spherical, an oceanic plate with ridge-distance models: the great-circle distance code runs in every thread
+            from wbgen import Gen, cart_point
+            from qgen import TOP
+            gg = Gen(rng)
+            wj = {"version": "1.1", "coordinate system": {"model": "spherical", "depth method": "begin segment"}, "features": []}
+            for kk, mk in enumerate(["half space model", "plate model"]):
+                wj["features"].append({"model": "oceanic plate", "name": "oc%d" % kk, "coordinates": [[-40 + 45 * kk, -30], [5 + 45 * kk, -30], [5 + 45 * kk, 30], [-40 + 45 * kk, 30]],
+                                       "max depth": 1.5e5, "temperature models": [{"model": mk, "max depth": 1.5e5, "top temperature": 300.0, "bottom temperature": 1600.0,
+                                                                                  "spreading velocity": round(rng.uniform(0.01, 0.1), 3),
+                                                                                  "ridge coordinates": [[[-20 + 45 * kk + rng.uniform(-3, 3), -28.0], [-20 + 45 * kk + rng.uniform(-3, 3), 28.0]]]}]})
+            sph = True
+            qs = [(cart_point(True, rng.uniform(-40, 50), rng.uniform(-30, 30), dd, 6371000.0, TOP), dd) for dd in [float(round(rng.uniform(0, 1.5e5))) for _k in range(160)]]
+            T = rng.choice([8, 16, 32])
         slot = cs.add_world(wj, model=False)
         ps = prop_list(rng, maxlen=5)
+        if wi % 4 == 2:
+            ps = [[1, 0, 0]] + ps
         cs.raw("mt %d %d %d %s %s" % (slot, T, len(qs), " ".join("%s %s %s %s" % (fhex(p[0]), fhex(p[1]), fhex(p[2]), fhex(d)) for p, d in qs), props_tok(ps)),
                "let () = out_str \"skip\"", {"kind": "mt", "threads": T, "world": wj, "props": ps})
     impl2, _ = cs.run(model=False)
